@@ -127,6 +127,11 @@ pub struct History {
 	pub throttle_log: Vec<(u64, u64)>,
 	pub flood_sent: u64,
 	pub flood_running_at_delivery: bool,
+	/// the error handler started / finished replacing itself from inside its own invocation
+	pub producers_stuck: bool,
+	pub replace_started: Option<u64>,
+	pub replace_done: Option<u64>,
+	pub wall: Duration,
 }
 
 #[derive(Debug)]
@@ -190,12 +195,16 @@ struct Shared {
 	errors: Mutex<Vec<ErrRec>>,
 	err_count: AtomicU64,
 	handler_version: AtomicU64,
+	replace_started: AtomicU64,
+	replace_done: AtomicU64,
 }
 
 pub fn run(s: &Synth) -> History {
 	let rt = tokio::runtime::Builder::new_multi_thread().worker_threads(s.threads.max(1)).enable_all().build().expect("runtime");
 	let hb = Heartbeat::start();
+	let t0 = std::time::Instant::now();
 	let mut h = rt.block_on(drive(s));
+	h.wall = t0.elapsed();
 	h.hb_max_gap = hb.take_max_gap();
 	drop(hb);
 	rt.shutdown_timeout(Duration::from_millis(200));
@@ -217,7 +226,9 @@ fn install_error_handler(config: &Arc<Config>, shared: &Arc<Shared>, behaviour: 
 			ErrBehaviour::CriticalNth(k) if n == *k => hook.critical(CriticalError::External(format!("verif-critical after error #{n}").into())),
 			ErrBehaviour::ReplaceSelf(k) if n == *k => {
 				sh.handler_version.store(u64::from(version) + 1, Ordering::SeqCst);
+				sh.replace_started.store(mono_ns(), Ordering::SeqCst);
 				install_error_handler(&cfg, &sh, ErrBehaviour::Ignore, version + 1);
+				sh.replace_done.store(mono_ns(), Ordering::SeqCst);
 			}
 			ErrBehaviour::Slow(ms) => std::thread::sleep(Duration::from_millis(*ms)),
 			_ => {}
@@ -232,6 +243,8 @@ async fn drive(s: &Synth) -> History {
 		errors: Mutex::new(vec![]),
 		err_count: AtomicU64::new(0),
 		handler_version: AtomicU64::new(0),
+		replace_started: AtomicU64::new(0),
+		replace_done: AtomicU64::new(0),
 	});
 	let filter_calls = Arc::new(Mutex::new(vec![]));
 	let mut config = Config::default();
@@ -341,7 +354,7 @@ async fn drive(s: &Synth) -> History {
 	// producers
 	let sent = Arc::new(Mutex::new(Vec::<Sent>::new()));
 	let next_id = Arc::new(AtomicU64::new(1));
-	let mut ptasks = vec![];
+	let mut ptasks: Vec<tokio::task::JoinHandle<()>> = vec![];
 	for (pi, evs) in s.producers.iter().enumerate() {
 		let wx = wx.clone();
 		let evs = evs.clone();
@@ -370,8 +383,17 @@ async fn drive(s: &Synth) -> History {
 			}
 		}));
 	}
-	for p in ptasks {
-		p.await.ok();
+	// bounded progress: producers only block on back pressure, which the action worker relieves
+	let all = async {
+		for p in ptasks.iter_mut() {
+			p.await.ok();
+		}
+	};
+	if tokio::time::timeout(Duration::from_secs(12), all).await.is_err() {
+		hist.producers_stuck = true;
+		for p in &ptasks {
+			p.abort();
+		}
 	}
 	hist.producers_done_at = mono_ns();
 
@@ -432,7 +454,7 @@ async fn drive(s: &Synth) -> History {
 		if done || main_done.load(Ordering::SeqCst) {
 			break;
 		}
-		if wait_start.elapsed() > cap {
+		if wait_start.elapsed() > cap || hist.producers_stuck {
 			hist.delivery_wait_timed_out = true;
 			break;
 		}
@@ -456,7 +478,7 @@ async fn drive(s: &Synth) -> History {
 		hist.quit_sent_at = Some(mono_ns());
 		hist.quit_send_ok = wx.send_event(make_event(id, Kind::Source, Verdict::Reject, true), Priority::Urgent).await.is_ok();
 	}
-	match tokio::time::timeout(Duration::from_secs(10), main_task).await {
+	match tokio::time::timeout(Duration::from_secs(if hist.producers_stuck { 2 } else { 10 }), main_task).await {
 		Ok(Ok((res, at))) => {
 			hist.main_done_at = Some(at);
 			hist.main_result = Some(match res {
@@ -473,6 +495,9 @@ async fn drive(s: &Synth) -> History {
 	hist.batches = shared.batches.lock().unwrap().clone();
 	hist.batches.sort_by_key(|b| b.t_enter);
 	hist.errors = shared.errors.lock().unwrap().clone();
+	let (rs, rd) = (shared.replace_started.load(Ordering::SeqCst), shared.replace_done.load(Ordering::SeqCst));
+	hist.replace_started = (rs != 0).then_some(rs);
+	hist.replace_done = (rd != 0).then_some(rd);
 	hist.throttle_log.extend(tlog.lock().unwrap().iter().copied());
 	hist
 }
